@@ -13,8 +13,10 @@ def tasks(ctx, quick):
 
     def add(t):
         t["id"] = "t%d" % len(items)
-        if rng.random() < 0.1:
-            t["T"] = "T1"
+        if "T" not in t and rng.random() < 0.15:
+            t["T"] = rng.choice(["T1", "T1", "T2"])
+        if not t.get("T"):
+            t.pop("T", None)
         items.append(t)
     for i in range(n):
         comp = gen.compound(nodata=(i % 23 == 0))
@@ -34,6 +36,13 @@ def tasks(ctx, quick):
                 t["wavelength"] = sorted(rng.sample([1, 2, 3, 4, 5, 6, 12], rng.randint(1, 4)))
             t["wform"] = rng.choice(["array", "list", "tuple"])
         t["via"] = ["formula", "kw", "carried", "formula", "kw", "carried-own"][i % 6 if i % 7 else 2]
+        if i % 10 == 9:        # the calculator reads the text itself with table=T (T2: a table with its own masses)
+            t["via"] = "sld-string-table"
+            t["T"] = rng.choice(["T2", "T2", "T1", None])
+            for kk in ("wform",):
+                t.pop(kk, None)
+        if "energy" in t and i % 3 == 0:
+            t["wavelength_ignored"] = rng.choice([1.0, 4.75, 12.0])
         if t["via"] == "carried":
             t["carried"] = rng.choice([1.0, 3.3, 11.0])
         add(t)
@@ -42,6 +51,9 @@ def tasks(ctx, quick):
         for lam in ([0.05, 0.2859, 0.3, 0.52, 0.9, 1.798, 2.86, 5.0, 50.0] if not quick else [0.05, 0.52, 1.798, 50.0]):
             add({"kind": "scat", "compound": ["dict", [[z, a, 0, 1], [8, 0, 0, 3]]], "density": 7.0, "wavelength": lam})
             add({"kind": "atom", "atom": [z, a, 0], "wavelength": lam})
+            if lam in (0.52, 50.0):         # the same on private tables
+                add({"kind": "scat", "compound": ["dict", [[z, a, 0, 1], [8, 0, 0, 3]]], "density": 7.0, "wavelength": lam, "T": "T1"})
+                add({"kind": "atom", "atom": [z, a, 0], "wavelength": lam, "T": "T2"})
     # every atom with data queried directly (element/isotope = one-atom compound at that atom's density)
     keys = gen.keys if not quick else rng.sample(gen.keys, 150)
     for z, a in keys:
@@ -66,10 +78,12 @@ def run_items(ctx, items, label):
     for it in items:
         byid[it["id"]] = it
     raw = neutgen.raw_has_data()
+    rawE = neutgen.raw_energy_dependent()
     for e in events:
         for part in e.get("ps", []):
             z, a, q = part["atom"]
             part["raw"] = bool(raw.get((z, a), False))
+            part["rawE"] = (z, a) in rawE
     bad = [e for e in events if e["ev"] == "harness_exc"]
     events = [e for e in events if e["ev"] != "harness_exc"]
     for e in bad:
